@@ -9,6 +9,7 @@ import (
 	"math/big"
 	"sort"
 
+	"github.com/piotrnar/gocoin/lib/btc"
 	"github.com/piotrnar/gocoin/lib/chain"
 )
 
@@ -319,6 +320,31 @@ func mixedBits(a, b *rBlock) bool {
 		}
 	}
 	return false
+}
+
+// floatSumsDiffer: the float64 sums of btc.GetDifficulty over the two sides of the fork, added up from the tips down to
+// the fork point (the order in which MorePOW adds them, and — leaf first — FindFarthestNode too), are not the same number.
+func floatSumsDiffer(a, b *rBlock) bool {
+	f := forkPoint(a, b)
+	sum := func(x *rBlock) float64 {
+		t := 0.0
+		for ; x != f; x = x.Parent {
+			t += btc.GetDifficulty(x.Bits)
+		}
+		return t
+	}
+	return sum(a) != sum(b)
+}
+
+// movingCheckpointDepth: a block that would fork the chain this deep below the tip is not accepted (the property's
+// quantifier ranges over the blocks the node admits; this is the one rule by which a VALID block is turned away for good)
+const movingCheckpointDepth = 2016
+
+// refTooDeep: the reference's own view of that rule, before the delivery: the block does not extend the reference's tip
+// and its height is 2016 or more below the tip's.
+func (s *scen) refTooDeep(b *rBlock) bool {
+	t := specTip(s.blocks)
+	return t != nil && b.Parent != nil && b.Parent != t && int(t.Height)-int(b.Height) >= movingCheckpointDepth
 }
 
 func dumpOfView(v map[outpoint]rCoin) []string {
